@@ -336,3 +336,85 @@ def utf8_catalogue():
     g("fffdlit", [rule("S", act(seq(label("x", opt(lit("a�"))), label("y", star(any_()))), b_rec("s")))], )
     g("twice", [rule("S", choice(act(seq(any_(), any_(), lit("z")), b_rec("s1")), act(seq(label("x", any_()), label("y", opt(any_()))), b_rec("s2"))))])
     return out
+
+
+# ------------------------------------------------------------------ C08: left recursion
+
+def lr_catalogue():
+    out = []
+    def g(name, rules, **kw):
+        out.append(grammar("lr_" + name, rules, needs_lr=True, **kw))
+    num = lambda: act(plus(cls(ranges=[("0", "1")])), b_text())
+    # direct, one recursive alternative
+    g("direct", [rule("S", act(seq(label("e", ref("E")), not_(any_())), b_rec("s"))),
+                 rule("E", choice(act(seq(label("l", ref("E")), lit("+"), label("r", ref("N"))), b_rec("add")), ref("N")), lr=True),
+                 rule("N", num())])
+    # two recursive alternatives, two bases
+    g("two", [rule("S", act(label("e", ref("E")), b_rec("s"))),
+              rule("E", choice(act(seq(label("l", ref("E")), lit("+"), label("r", ref("N"))), b_rec("add")),
+                               act(seq(label("l", ref("E")), lit("-"), label("r", ref("N"))), b_rec("sub")),
+                               ref("N"), act(lit("x"), b_const("X"))), lr=True),
+              rule("N", num())])
+    # expr / term nesting
+    g("nest", [rule("S", act(seq(label("e", ref("E")), not_(any_())), b_rec("s"))),
+               rule("E", choice(act(seq(label("l", ref("E")), lit("+"), label("r", ref("T"))), b_rec("add")), ref("T")), lr=True),
+               rule("T", choice(act(seq(label("l", ref("T")), lit("*"), label("r", ref("N"))), b_rec("mul")), ref("N")), lr=True),
+               rule("N", num())])
+    # LR rule referenced under a predicate and in a repetition
+    g("pred", [rule("S", act(seq(and_(ref("E")), label("e", ref("E")), label("rest", star(seq(lit(","), ref("E"))))), b_rec("s"))),
+               rule("E", choice(act(seq(label("l", ref("E")), lit("+"), label("r", ref("N"))), b_rec("add")), ref("N")), lr=True),
+               rule("N", num())])
+    # suffix-only recursion (postfix operator)
+    g("postfix", [rule("S", act(label("e", ref("E")), b_rec("s"))),
+                  rule("E", choice(act(seq(label("l", ref("E")), lit("!")), b_rec("bang")), act(lit("0"), b_const("zero"))), lr=True)])
+    return out
+
+
+# ------------------------------------------------------------------ C09: optimisation triggers
+
+def opt_catalogue():
+    out = []
+    def g(name, rules, tags=(), entries=None):
+        gg = grammar("og_" + name, rules, tags=list(tags))
+        if entries:
+            gg["entries"] = entries
+        out.append(gg)
+    top = lambda x: act(seq(label("x", x), label("y", opt(any_()))), b_rec("s"))
+    # leaf rule used from 1 / 2 / 3 places
+    g("leaf1", [rule("S", top(seq(ref("A"), lit("c")))), rule("A", choice(lit("a"), lit("b")))])
+    g("leaf2", [rule("S", top(seq(ref("A"), ref("B"), ref("A")))), rule("A", seq(lit("a"), opt(lit("b")))), rule("B", act(lit("c"), b_rec("B")))])
+    g("leaf3", [rule("S", top(choice(seq(ref("A"), lit("c")), seq(ref("A"), lit("d")), ref("A")))), rule("A", act(plus(cls(ranges=[("a", "b")])), b_text()))])
+    # chain: B leaf inlined into A, then A becomes leaf
+    g("chain", [rule("S", top(seq(ref("A"), lit("d")))), rule("A", seq(ref("B"), opt(lit("c")))), rule("B", choice(lit("a"), lit("b")))])
+    # nested choices / sequences to depth 3
+    g("nestcho", [rule("S", top(choice(choice(lit("ab"), choice(lit("a"), lit("b"))), lit("c"))))])
+    g("nestseq", [rule("S", top(seq(seq(lit("a"), seq(lit("b"), cls(chars="c"))), lit("d"))))])
+    g("mixnest", [rule("S", top(seq(choice(seq(lit("a"), lit("b")), lit("a")), choice(choice(lit("b"), lit("c")), lit("d")))))])
+    # literal / class merging in choices, all i and ^ combinations
+    k = 0
+    for l0 in (lit("a"), lit("a", i=True), cls(chars="ab"), cls(chars="ab", i=True), cls(chars="ab", inv=True), cls(ranges=[("a", "b")], inv=True, i=True)):
+        for l1 in (lit("b"), lit("B", i=True), cls(chars="bc"), cls(chars="BC", i=True), cls(chars="bc", inv=True), cls(ranges=[("b", "d")])):
+            k += 1
+            tags = []
+            if l0["k"] == "cls" and l1["k"] == "cls" and l0["inv"] and l1["inv"] and l0["i"] == l1["i"]:
+                tags.append("merge-two-inverted-classes")
+            g("merge%02d" % k, [rule("S", top(plus(choice(json_copy(l0), json_copy(l1)))))], tags=tags)
+    # literal runs with mixed i
+    g("litrun", [rule("S", top(seq(lit("a"), lit("b"), lit("C", i=True), lit("d", i=True), lit("a"))))])
+    g("litrun2", [rule("S", top(seq(lit("a"), ref("B"), lit("c")))), rule("B", lit("b"))])
+    # predicates and actions on inlined rules, labels inside inlined rules
+    g("predinl", [rule("S", top(seq(and_(ref("A")), ref("A"), not_(ref("B"))))), rule("A", cls(ranges=[("a", "c")])), rule("B", lit("d"))])
+    g("actinl", [rule("S", top(seq(label("p", ref("A")), label("q", ref("A"))))), rule("A", act(seq(label("v", cls(ranges=[("a", "b")])), label("w", opt(lit("c")))), b_rec("A")))])
+    g("lblinl", [rule("S", act(seq(label("p", ref("A")), label("q", opt(ref("B")))), b_rec("s"))), rule("A", seq(label("v", lit("a")), label("w", opt(lit("b"))))), rule("B", act(label("u", lit("c")), b_rec("B")))])
+    g("starinl", [rule("S", top(seq(star(ref("A")), plus(ref("B"))))), rule("A", seq(lit("a"), lit("b"))), rule("B", choice(lit("a"), lit("c")))])
+    # alternate entrypoints
+    g("entry", [rule("S", top(seq(ref("A"), ref("B")))), rule("A", act(choice(lit("a"), lit("b")), b_rec("A"))), rule("B", act(seq(lit("c"), opt(ref("A"))), b_rec("B")))], entries=["", "A", "B"])
+    g("unused", [rule("S", top(ref("A"))), rule("A", lit("a")), rule("U", act(lit("u"), b_rec("U")))], entries=["", "U"])
+    # same label name in caller and inlined callee
+    g("lblclash", [rule("S", act(seq(label("v", lit("a")), label("q", ref("A"))), b_rec("s"))), rule("A", seq(label("v", lit("b")), opt(lit("c"))))], tags=["inlined-label-clash"])
+    return out
+
+
+def json_copy(x):
+    import json
+    return json.loads(json.dumps(x))
